@@ -707,7 +707,9 @@ class Sandbox:
         self.patch(pf, 'ioctl', lambda fd, req, buf, *a: 0)
         self.pf_objects = {'pf-freebsd': pf.FreeBsd(), 'pf-openbsd': pf.OpenBsd(), 'pf-darwin': pf.Darwin()}
         self.patch(pf, 'pf', pf.pf)
-        self.saved_ctx = dict(pf._pf_context)
+        import copy as _copy
+        self.saved_ctx = _copy.deepcopy(pf._pf_context)     # dict in 1.3.0; whatever the tree under test has
+        self.orig_ctx = pf._pf_context
 
     # FakeSub calls self.run / self.spawn_pending
     def run(self, argv, stdin=b''):
@@ -749,8 +751,8 @@ class Sandbox:
 
     def use_pf(self, method):
         pf = self.m['pf']
-        pf._pf_context.clear()
-        pf._pf_context.update(dict(self.saved_ctx, Xtoken=[]))
+        import copy as _copy
+        pf._pf_context = _copy.deepcopy(self.saved_ctx)     # a fresh helper process: module state as at import
         if hasattr(pf, '_pf_fd'):
             pf._pf_fd = None
         if method in self.pf_objects:
@@ -779,8 +781,7 @@ class Sandbox:
     def close(self):
         for mod, name, val in reversed(self.saved):
             setattr(mod, name, val)
-        self.m['pf']._pf_context.clear()
-        self.m['pf']._pf_context.update(self.saved_ctx)
+        self.m['pf']._pf_context = self.orig_ctx
         sys.stderr = self.stderr
         sys.stdout = self.stdout
         self.m['helpers'].verbose = 0
@@ -970,8 +971,9 @@ class Case:
 
     def __init__(self, method, chunks, faults=(), prelude=(), resolvectl=False, started_fails=False,
                  pfinit=None, second=None, ports=(), pfrules=None, spawn=None, io=None, fd_budget=None,
-                 status=None, env_fail=None, verbose=None):
+                 status=None, env_fail=None, verbose=None, sessions=1):
         self.method = method
+        self.sessions = int(sessions or 1)   # consecutive complete sessions (a new helper each) on the same machine
         self.verbose = verbose   # helpers.verbose while the real code runs; None = take the next of the rotation
         self.chunks = [c if isinstance(c, bytes) else c.encode('ASCII') for c in chunks]
         self.faults = sorted(faults)
@@ -1003,14 +1005,16 @@ class Case:
                     pfinit=self.pfinit, second=self.second, ports=self.ports,
                     spawn=dict((str(k), v) for k, v in sorted(self.spawn.items())), io=self.io,
                     fd_budget=self.fd_budget, status=dict((str(k), v) for k, v in sorted(self.status.items())),
-                    env_fail=[list(x) for x in self.env_fail], verbose=self.verbose)
+                    env_fail=[list(x) for x in self.env_fail], verbose=self.verbose,
+                    sessions=self.sessions)
 
     @staticmethod
     def from_json(d):
         return Case(d['method'], d['dialogue'], d.get('faults', ()), d.get('prelude', ()), d.get('resolvectl', False),
                     d.get('started_fails', False), d.get('pfinit'), d.get('second'), d.get('ports', ()),
                     spawn=d.get('spawn'), io=d.get('io'), fd_budget=d.get('fd_budget'), status=d.get('status'),
-                    env_fail=d.get('env_fail'), verbose=d.get('verbose', 0))
+                    env_fail=d.get('env_fail'), verbose=d.get('verbose', 0),
+                    sessions=d.get('sessions', 1))
 
 
 def second_instance(box, method, q, action):
@@ -2242,6 +2246,10 @@ PF_FOREIGN = [['pfctl', '-a', 'com.example/vpn', '-f', '/dev/stdin']]     # anot
 
 def pf_cases(ctx):
     """(case, enumerate_faults)"""
+    # Darwin: `pfctl -E` hands out one reference token per call (one per family), `pfctl -X <token>` releases
+    # exactly that one; another tool holds a reference of its own throughout; 1, 2, 3 consecutive sessions
+    for n in (1, 2, 3):
+        yield Case('pf-darwin', PF_DIALOGUE, prelude=[['pfctl', '-E']], ports=[12300, 12301], sessions=n), False
     flavours = ['pf-openbsd'] + (['pf-darwin'] if ctx.thorough else [])
     for m in flavours:
         # an ordinary session with both families; pf enabled before the session; IPv4 only; then a long one:
@@ -2255,13 +2263,26 @@ def pf_cases(ctx):
         yield Case(m, PF_DIALOGUE + q, ports=[12300, 12301], fd_budget=budget), False
 
 
+def run_pf_case(box, case, lean):
+    """One pf case: the session, then `sessions - 1` more complete sessions (each a fresh helper) on the same
+    machine; the oracle looks at pf after the last one."""
+    o = execute(box, case, lean)
+    o.fd_used = box.fd_used
+    if case.sessions > 1:
+        case.full_chunks = list(case.chunks)
+        for _ in range(case.sessions - 1):
+            later_session(box, case, o.py)
+        o.final = o.py.show()
+        o.final_pretty = o.py.pretty()
+    return o
+
+
 def run_pf(ctx, box, lean):
     def one(case):
-        o = execute(box, case, lean)
-        o.fd_used = box.fd_used
+        o = run_pf_case(box, case, lean if case.sessions == 1 else None)
         ctx.count()
         ctx.mark((case.method, len(case.chunks), case.fd_budget, tuple(case.faults), tuple(sorted(case.spawn.items())),
-                  bool(case.pfinit)), o.ncmd > 0)
+                  bool(case.pfinit), case.sessions, bool(case.prelude)), o.ncmd > 0)
         fi = case.fault_indices()
         phase = 'none' if not fi else ('teardown' if o.undo_at is not None and min(fi) >= o.undo_at else 'setup')
         ctx.hist('%s:%s' % (case.method, 'fd-budget' if case.fd_budget is not None else
@@ -2446,8 +2467,7 @@ def replay(ctx, rep):
     box = Sandbox()
     try:
         if case.method.startswith('pf'):
-            o = execute(box, case, None)
-            o.fd_used = box.fd_used
+            o = run_pf_case(box, case, None)
             bad = pf_oracle(case, o)
             known = set(k['key'] for k in common.load_known() if k.get('status') == 'known')
             bad = [b for b in bad if b[0] not in known] if rep.get('key') not in known else bad
